@@ -251,12 +251,12 @@ def h_executor_hooks(raise_before: bool, raise_after: bool, exc_sel: int, two_ob
         start = tracer.is_disabled()
         try:
             ex._before_statement_execution(_Stmt(), {})
-        except Exception:  # noqa: BLE001
+        except (Exception, _UserAbort):  # noqa: BLE001
             pass
         ok = ok and tracer.is_disabled() == start
         try:
             ex._after_statement_execution(_Stmt(), {}, None)
-        except Exception:  # noqa: BLE001
+        except (Exception, _UserAbort):  # noqa: BLE001
             pass
         ok = ok and tracer.is_disabled() == start
         # the next statement's traced code is still recorded
@@ -302,7 +302,7 @@ def obligations(tier: str):
         Chx("executor_hooks", h_executor_hooks, timeout=T),
     ]
     if q:
-        obs.append(Chx("history", h_history, timeout=T, fix={"e3": 0, "c3": 0, "a3": 3, "w3": 0}, split={"e1": [0, 1, 2, 3, 6], "w1": [0, 1, 4, 7]}))
+        obs.append(Chx("history", h_history, timeout=T, fix={"e3": 0, "c3": 0, "a3": 3, "w3": 0, "a1": 4, "a2": 4}, split={"e1": [0, 1, 2, 3, 6], "w1": [0, 1, 4, 7]}))
     else:
         obs.append(Chx("history", h_history, timeout=T, split={"e1": [0, 1, 2, 3, 6], "e2": [0, 1, 2, 3, 6], "w1": list(range(9))}))
     return obs
